@@ -32,8 +32,8 @@ RULE = (
     "dimensionless strings '', '1', '-'), and a value (float, int or float array); oracle: convert_units == value / "
     "prod(base_scale^exponent) with the exponents expanded by the check and the product formed in exact rational "
     "arithmetic (1e-12 relative), to_si round trip returns the value, the string split at a random '*' converts like "
-    "the two parts in sequence, every derived unit converts like its base-unit expression, arrays are not modified in "
-    "place. material: one of the four Constants classes with random SI values for a random subset of fields: stored "
+    "the two parts in sequence, every derived unit converts like its base-unit expression, converting the same array object twice gives the same "
+    "result. material: one of the four Constants classes with random SI values for a random subset of fields: stored "
     "values == oracle conversion of the SI value under its declared unit, constants_in_SI keeps the SI values exactly, "
     "to_units(other) == direct construction in the other system, to_units(pp.Units()) and convert_units(.., to_si=True) "
     "give back the SI values. sim (about 1 % of the cases): SinglePhaseFlow on a Cartesian unit-square md-grid with "
@@ -239,12 +239,19 @@ def _check_convert(s):
     labels = ["convert", f"value-{vt}"] + _scale_labels(s["scales"])
 
     def conv(val, string, to_si=False):
-        arg = val.copy() if isinstance(val, np.ndarray) else val
+        if not isinstance(val, np.ndarray):
+            return U.convert_units(val, string, to_si=to_si)
+        # A caller typically keeps the array and converts it again later (boundary values are converted on every
+        # call). Whether convert_units leaves its argument alone is not demanded by itself; converting the same array
+        # object twice must give the same result.
+        arg = val.copy()
         out = U.convert_units(arg, string, to_si=to_si)
-        if isinstance(val, np.ndarray):
-            require(isinstance(out, np.ndarray) and out.shape == val.shape, "convert-type", f"{type(out)}")
-            require_equal(arg, val, "convert-mutates-input", "convert_units changed the array it was given")
-        return out
+        require(isinstance(out, np.ndarray) and out.shape == val.shape, "convert-type", f"{type(out)}")
+        first = np.array(out, dtype=float, copy=True)
+        again = U.convert_units(arg, string, to_si=to_si)
+        require_equal(np.asarray(again, dtype=float), first, "convert-repeat",
+                      "converting the same array object a second time gives a different result")
+        return first
 
     if not tokens:
         labels.append("dimensionless")
